@@ -27,6 +27,7 @@ type HarnessOpts struct {
 	AssertMs     int
 	Backends     []BackendSpec // order of preference
 	MapOrders    bool          // C08 mode: explore iteration orders of maps
+	RealBodies   []string      // function-name prefixes whose intrinsics are bypassed (real body runs)
 	Config       map[string]int64
 }
 
@@ -41,6 +42,7 @@ type Engine struct {
 	Verbose    bool
 	SkipGo     bool
 	TraceSMT   bool
+	Progress   bool
 
 	intrinsics map[string]intrinsic
 	prefixIntr []prefixIntrinsic
@@ -54,8 +56,9 @@ type prefixIntrinsic struct {
 	f      intrinsic
 }
 
-func NewEngine() *Engine {
+func NewEngine(modulePath string) *Engine {
 	e := &Engine{
+		ModulePath: modulePath,
 		MaxSteps:   50_000_000,
 		CrossMs:    1500,
 		Workers:    16,
@@ -66,6 +69,8 @@ func NewEngine() *Engine {
 	registerBig(e)
 	registerStd(e)
 	registerTree(e)
+	registerRLP(e)
+	registerCrypto(e)
 	return e
 }
 
@@ -174,6 +179,7 @@ type PathResult struct {
 	Decisions  int
 	Steps      int64
 	Uncertain  bool
+	ForkSites  []string
 	PCSize     int
 }
 
@@ -293,6 +299,9 @@ func (e *Engine) RunHarness(pkgPath, fnName string, opts *HarnessOpts) (*Harness
 				mu.Unlock()
 
 				pr, forks, ctx := e.runPath(fn, prefix, sess, opts)
+				if e.Progress {
+					fmt.Fprintf(os.Stderr, "[%6.1fs] path %s %s %s (forks %d, queries %d)\n", time.Since(t0).Seconds(), pr.Trace, pr.Outcome, short(pr.Detail, 200), len(forks), sess.Queries)
+				}
 
 				mu.Lock()
 				active--
@@ -351,6 +360,17 @@ func (e *Engine) runPath(fn *ssa.Function, prefix []traceEntry, sess *Session, o
 		funcsEntered: map[string]int{}, stubs: map[string]int{}}
 	i := &interpreter{eng: e, prog: e.Prog, globals: map[*ssa.Global]*value{}, inited: map[*ssa.Package]bool{},
 		sizes: &types.StdSizes{WordSize: 8, MaxAlign: 8}, ctx: ctx, heap: map[string]interface{}{}}
+	ctx.siteOf = func() string {
+		fr := i.curFrame
+		if fr == nil || fr.fn == nil {
+			return "?"
+		}
+		pos := ""
+		if fr.curInstr != nil {
+			pos = e.Prog.Fset.Position(fr.curInstr.Pos()).String()
+		}
+		return fr.fn.String() + "@" + pos
+	}
 	func() {
 		defer func() {
 			r := recover()
@@ -379,6 +399,7 @@ func (e *Engine) runPath(fn *ssa.Function, prefix []traceEntry, sess *Session, o
 	pr.Decisions = ctx.symDecisions
 	pr.Steps = i.steps
 	pr.Uncertain = ctx.uncertain
+	pr.ForkSites = ctx.forkSites
 	pr.PCSize = ctx.pcSize
 	if pr.Outcome == "panicked" || pr.Outcome == "returned" {
 		// a witness input for this path (replay / differential validation)
